@@ -5,6 +5,7 @@ mvdrv <mode>: one request per line on stdin (`id<TAB>payload`), one answer per l
 import MambaVerif.Model.Wire
 import MambaVerif.Model.PyExpr
 import MambaVerif.Model.Ty
+import MambaVerif.Model.Range
 
 open MV
 
@@ -47,6 +48,13 @@ def handle (mode : String) (payload : String) : String :=
         hexOfBytes (renderToks ts).toUTF8 ++ "\t" ++ parsed
       | none => "bad core"
     | none => "bad sexp"
+  | "range" =>
+    match payload.splitOn " " with
+    | [a, b, c, d] =>
+      match a.toInt?, b.toInt?, d.toInt? with
+      | some lo, some hi, some st => rangeArgsText lo hi (c == "1") st
+      | _, _, _ => "bad ints"
+    | _ => "bad payload"
   | "tysup" => tySupRequest payload
   | "tyunion" => tyUnionRequest payload
   | _ => "BADMODE"
